@@ -143,6 +143,8 @@ var c04Funcs = []string{
 	"callsq = a => sq(a) * 2",
 	// a function that re-binds a function valued global, functions that differ only by name and show it through self,
 	// results that hold closures or large (in place updated) containers, log(), drawing on a named image
+	"func vf(..) {..}",
+	"func vg(a, ..) {println(..); len(..)}",
 	"func rebind(x) {r = sq(x); sq = y => y * 2; r}",
 	"func nm1() {println(self); 1}",
 	"func nm2() {println(self); 1}",
@@ -175,7 +177,7 @@ func (p c04) session(c *fw.Ctx) []string {
 	}
 	n := 10 + r.IntN(40)
 	for k := 0; k < n; k++ {
-		switch r.IntN(50) {
+		switch r.IntN(53) {
 		case 0:
 			in = append(in, "p1("+small()+", "+small()+")")
 		case 1:
@@ -264,6 +266,11 @@ func (p c04) session(c *fw.Ctx) []string {
 			in = append(in, calls...)
 		case 40:
 			in = append(in, "callsq("+small()+")", "twice(callsq, "+small()+")")
+		case 48: // a trailing array argument is expanded: [[5]] and [5] are different calls
+			in = append(in, "vf([[5]])", "vf([5])", "vf([[5]])", "vg(1, [[7]])", "vg(1, [7])", "vg(1, 7)")
+		case 49: // a parameter named like a constant is checked against the constant's current value at every call
+			k := small()
+			in = append(in, "shk(10, "+k+")", "del(K1)", "K1 = 11", "shk(10, "+k+")", "shk(11, "+k+")", "del(K1)", "K1 = 10")
 		case 41:
 			k := small()
 			in = append(in, "ap2("+k+")", "for sq = [x => x * 2, x => x * 3] {println(ap2("+k+"))}", "ap2("+k+")", "for sq = 3 {}", "ap2("+k+")", "sq = x => x * x")
